@@ -66,6 +66,15 @@ def extract_model(m, inputs):
                 v = m.eval(payload, model_completion=True)
                 lst = _seq_to_list(v)
                 vals[name] = {"str_utf8": bytes(x % 256 for x in lst).hex() if lst is not None else None}
+                try:
+                    # character count of the abstract string in this model (native replay builds a real string
+                    # with that many characters and octets, see helper/native.py)
+                    isort = z3.IntSort()
+                    c = m.eval(z3.Function("utf8_chars", z3.SeqSort(isort), isort)(payload), model_completion=True)
+                    if z3.is_int_value(c):
+                        vals[name]["chars"] = c.as_long()
+                except Exception:
+                    pass
             elif kind == "real":
                 v = m.eval(payload, model_completion=True)
                 try:
